@@ -2,6 +2,7 @@ package main
 
 import (
 	"fmt"
+	"strings"
 )
 
 // C13: the L2 validator set in state always equals what the consensus engine was told.
@@ -131,6 +132,25 @@ func randGenesis(rg *Rng, nOps, nKeys int) ValGenesis {
 					g.Last = append(g.Last, OpPow{v.Op, v.Pow})
 				}
 			}
+		}
+	}
+	if g.Exported && rg.Chance(45) {
+		// an edited export: last powers differing up or down from the validators' powers, a
+		// validator without a last-power entry, a stored validator with power 0 that was bonded
+		for i := range g.Last {
+			switch rg.Intn(4) {
+			case 0:
+				g.Last[i].Pow = int64(1 + rg.Intn(5))
+			case 1:
+				for j := range g.Vals {
+					if g.Vals[j].Op == g.Last[i].Op && rg.Chance(50) {
+						g.Vals[j].Pow = int64(rg.Intn(6)) // 0 = removed by the first end blocker
+					}
+				}
+			}
+		}
+		if len(g.Last) > 1 && rg.Chance(30) {
+			g.Last = g.Last[1:]
 		}
 	}
 	return g
@@ -295,6 +315,11 @@ func genC13(seed uint64, tier string, outdir string) *Report {
 		{genesisOf(3, 2, VRec{1, 1, 0}, VRec{2, 2, 1}), true, "a zero-power genesis validator is purged"},
 		{genesisOf(3, 2, VRec{1, 1, -3}, VRec{2, 2, 4}), true, "a negative-power genesis validator is purged"},
 		{ValGenesis{Vals: []VRec{{1, 2, 1}, {3, 1, 2}}, MaxV: 2, Entries: 1, Exported: true, Last: []OpPow{{1, 1}, {3, 2}}}, true, "exported"},
+		{ValGenesis{Vals: []VRec{{1, 1, 3}, {2, 2, 1}}, MaxV: 3, Entries: 2, Exported: true, Last: []OpPow{{1, 1}, {2, 1}}}, true, "edited export: power raised 1 -> 3"},
+		{ValGenesis{Vals: []VRec{{1, 1, 1}, {2, 2, 2}}, MaxV: 3, Entries: 2, Exported: true, Last: []OpPow{{1, 5}, {2, 2}}}, true, "edited export: power lowered 5 -> 1"},
+		{ValGenesis{Vals: []VRec{{1, 1, 2}, {2, 2, 1}}, MaxV: 3, Entries: 2, Exported: true, Last: []OpPow{{2, 1}}}, true, "edited export: a validator without last power"},
+		{ValGenesis{Vals: []VRec{{1, 1, 0}, {2, 2, 4}}, MaxV: 3, Entries: 2, Exported: true, Last: []OpPow{{1, 2}, {2, 3}}}, true, "edited export: a bonded validator set to power 0, another 3 -> 4"},
+		{ValGenesis{Vals: []VRec{{2, 2, 1}}, MaxV: 3, Entries: 2, Exported: true, Last: []OpPow{{1, 1}, {2, 1}}}, true, "edited export: a last power without validator (InitGenesis panics)"},
 	}
 	// a powerless (zero / negative power) entry sharing the consensus key (under another
 	// operator) or the operator address (with another key) with a powered entry, in both list
@@ -319,7 +344,11 @@ func genC13(seed uint64, tier string, outdir string) *Report {
 		st.caseID++
 		r := st.ve.Start(st.caseID, gc.g, 3, 3)
 		rep.Hist("genesis-check:" + r.Snaps[0].Verdict)
-		if gc.valid && r.Dead() {
+		if strings.Contains(gc.why, "InitGenesis panics") {
+			if r.Snaps[0].Verdict != "PANIC" {
+				rep.Violate(Violation{Case: st.caseID, What: "InitGenesis accepted a last power without validator: " + r.Snaps[0].Verdict, Sig: "C13:invalid-genesis-accepted", Ops: []string{gc.g.String()}})
+			}
+		} else if gc.valid && r.Dead() {
 			rep.Violate(Violation{Case: st.caseID, What: "valid genesis rejected (" + gc.why + "): " + r.Snaps[0].Err, Sig: "C13:valid-genesis-rejected", Ops: []string{gc.g.String()}})
 		}
 		if !gc.valid && r.Snaps[0].Verdict != "INVALID" {
